@@ -9,10 +9,9 @@ ID = "C05"
 LEVEL = "proof"
 DESIGN_REF = "DESIGN.md §9 C05, §12.C05"
 COQ_TARGETS = ["Properties/C05", "Pins/C05"]
-THEOREMS_FULL = [("PdfV.Properties.C05", n) for n in [
+THEOREMS = [("PdfV.Properties.C05", n) for n in [
     "C05_hex", "C05_a85", "C05_a85_group", "C05_rle", "C05_paeth", "C05_png_row", "C05_geometry", "C05_png",
-    "C05_tiff_row", "C05_tiff", "C05_flate", "C05_lzw", "C05_chain", "C05_pairing", "C05_stream", "C05_no_panic"]]
-THEOREMS = [("PdfV.Properties.C05", "C05_hex")]
+    "C05_tiff_row", "C05_tiff", "C05_flate", "C05_lzw", "C05_chain", "C05_pairing", "C05_stream", "C05_no_panic", "C05_full"]]
 ANCHORS = ["enc.rs", "stream.rs"]
 MODES = ["hexdec", "a85dec", "rledec", "unpredict", "decchain", "streamdata"]
 TRUSTED_BASE = [
